@@ -28,6 +28,7 @@ use std::sync::{Arc, Condvar, Mutex, MutexGuard, OnceLock};
 use std::time::{Duration, Instant};
 
 const WAITS: [u64; 3] = [1, 4, 15]; // escalating waits, seconds
+const MAX_EVENTS: usize = 400_000; // per run; the largest legitimate run (200 tasks, all panicking) has < 4000
 const CALLER: i64 = -1;
 const RECOVERY: i64 = -2;
 const DRIVER: i64 = -9;
@@ -59,6 +60,8 @@ struct St {
     cret: u64,
     perturb_seed: u64,
     perturb_pct: u64,
+    /// more than MAX_EVENTS points reported in one run: some thread is spinning (livelock); recording stops
+    flood: bool,
 }
 
 struct H {
@@ -114,6 +117,13 @@ fn record(name: &'static str, a: i64, b: i64) {
     let th = thread_key();
     let h = hh();
     let mut st = lock();
+    if st.events.len() >= MAX_EVENTS {
+        st.flood = true;
+        h.cv.notify_all();
+        drop(st);
+        std::thread::sleep(Duration::from_millis(1));
+        return;
+    }
     let a = if name == "Pool_Execute" { st.cur_task } else { a };
     st.seq += 1;
     let seq = st.seq;
@@ -294,6 +304,9 @@ fn wait_until<F: FnMut(&mut St) -> bool>(mut pred: F) -> Result<(), u64> {
             if pred(&mut st) {
                 return Ok(());
             }
+            if st.flood {
+                return Err(t0.elapsed().as_secs());
+            }
             let now = Instant::now();
             if now >= phase_end {
                 break;
@@ -317,6 +330,9 @@ fn wait_quiescent(expected: usize, submitted: usize, c: &Counters) -> Result<(),
         // thread (Rec_Respawn is reported just before the thread is created)
         let recovered = {
             let st = lock();
+            if st.flood {
+                return Err((total_threads().saturating_sub(expected), t0.elapsed().as_secs()));
+            }
             let markers = st.events.iter().filter(|e| e.ev == "Marker_Send").count();
             let respawns = st.events.iter().filter(|e| e.ev == "Rec_Respawn").count();
             markers == respawns
@@ -350,6 +366,7 @@ fn reset_state(gated: bool, perturb_seed: u64, perturb_pct: u64) {
     st.cur_task = 0;
     st.perturb_seed = perturb_seed;
     st.perturb_pct = perturb_pct;
+    st.flood = false;
 }
 
 fn flush_run(out: &mut std::fs::File, n: usize, tasks: usize, pan: &[i64]) {
@@ -357,9 +374,13 @@ fn flush_run(out: &mut std::fs::File, n: usize, tasks: usize, pan: &[i64]) {
     let mut buf = String::new();
     buf.push_str(&json!({"seq": 0, "th": DRIVER, "ev": "Reset", "a": n, "b": tasks, "p": pan}).to_string());
     buf.push('\n');
-    for e in &st.events {
-        buf.push_str(&e.json().to_string());
-        buf.push('\n');
+    let keep = if st.flood { 3000 } else { st.events.len() };
+    let last = st.events.len().saturating_sub(1);
+    for (i, e) in st.events.iter().enumerate() {
+        if i < keep || i == last {
+            buf.push_str(&e.json().to_string());
+            buf.push('\n');
+        }
     }
     out.write_all(buf.as_bytes()).expect("write trace");
 }
@@ -479,7 +500,7 @@ fn random_mode(args: &[String]) {
             driver_event("C_Hang", if cret >= drop_index { 1 } else { 3 }, cret as i64);
             flush_run(&mut out, n, tasks, &pan);
             hang = Some(json!({"run": run, "what": if cret >= drop_index { "drop() did not return" } else { "caller blocked before drop" },
-                               "n": n, "tasks": tasks, "stop": stop, "started": started, "waited_s": waited, "script": script}));
+                               "n": n, "tasks": tasks, "stop": stop, "started": started, "waited_s": waited, "script": script, "event_flood": lock().flood}));
             break;
         }
         drop(tx);
@@ -491,7 +512,7 @@ fn random_mode(args: &[String]) {
                 driver_event("C_Hang", 2, live as i64);
                 flush_run(&mut out, n, tasks, &pan);
                 hang = Some(json!({"run": run, "what": "after drop() returned: worker threads still alive, a panicked worker not replaced, or a submitted task never entered", "live": live,
-                                   "n": n, "tasks": tasks, "stop": stop, "started": started, "waited_s": waited, "script": script}));
+                                   "n": n, "tasks": tasks, "stop": stop, "started": started, "waited_s": waited, "script": script, "event_flood": lock().flood}));
                 break;
             }
         }
@@ -581,6 +602,9 @@ fn await_event(th: i64, want: &str, auto_release: bool) -> Result<Ev, u64> {
                 continue;
             }
             return Ok(e);
+        }
+        if st.flood {
+            return Err(t0.elapsed().as_secs());
         }
         if auto_release {
             if let Some(&idx) = st.parked.get(&th) {
